@@ -196,7 +196,7 @@ pub struct Prog {
 pub const PROGRAMS: [Prog; 6] = [
     Prog {
         name: "refs",
-        text: "let @obj = { 'id! int, 'name str, 'self /objs/{ 'id int } };\nlet @list = [@obj];\nlet tree = rec x { 'value @obj, 'children [x] };\nres /objs on get -> <@list>;\nres /objs/{ 'id int } on get -> <@obj>, put : <headers={ 'X-Api-Key str, 'Authorization str }, @obj> -> <@obj>;\nres /tree on (get -> <tree>) `tags: [from-the-program, another]`;\nlet first a b = a;\nres /v1/status on get -> <first @obj (rec x { 'k [x] })>;\nres /api/v1 on get -> <>;\n",
+        text: "let @obj = { 'id! int, 'name str, 'self /objs/{ 'id int } };\nlet @list = [@obj];\nlet tree = rec x { 'value @obj, 'children [x] };\nres /objs on get -> <@list> `examples: { sample: \"examples/list.json\", other: \"examples/other.json\" }`;\nres /objs/{ 'id int } on get -> <@obj>, put : <headers={ 'X-Api-Key str, 'Authorization str }, @obj> -> <@obj>;\nres /tree on (get -> <tree>) `tags: [from-the-program, another]`;\nlet first a b = a;\nres /v1/status on get -> <first @obj (rec x { 'k [x] })>;\nres /api/v1 on get -> <>;\n",
     },
     Prog {
         name: "empty",
